@@ -406,6 +406,8 @@ struct Sig {
     paren_partial_type: bool, // F25: a type pattern that is a partial tuple type, e.g. `((j: 't))`
     spawn_rich_function: bool, // F26: spawn of a function with type parameters / return type / no body
     wrap_binding: bool, // F27: a branch of a multi-branch block whose body is one chain that binds/matches
+    spawn_container: bool, // F29: `@` applied to a tuple / string / spawn / select term (format.rs:432 unreachable!)
+    multi_branch: bool, // a block / function body with two or more branches
 }
 fn unprotected_space(c: char) -> bool {
     c.is_whitespace() && c != ' ' && c != '\t' && c != '\r' && c != '\n'
@@ -523,6 +525,7 @@ fn sig_chain(c: &Chain, in_hole: bool, sig: &mut Sig) {
 }
 fn sig_expression(e: &Expression, in_hole: bool, sig: &mut Sig) {
     if e.branches.len() > 1 {
+        sig.multi_branch = true;
         for b in &e.branches {
             let body = b.consequence.as_ref().unwrap_or(&b.condition);
             if let [c] = body.chains.as_slice() {
@@ -590,6 +593,9 @@ fn sig_term(t: &Term, in_hole: bool, sig: &mut Sig) {
             }
         }
         Term::Spawn(inner, _) => {
+            if matches!(&**inner, Term::Tuple(_) | Term::String(..) | Term::Block(_) | Term::Spawn(..) | Term::Select(..)) {
+                sig.spawn_container = true;
+            }
             if let Term::Function(f) = &**inner {
                 if !f.type_parameters.is_empty() || f.return_type.is_some() || f.body.is_none() {
                     sig.spawn_rich_function = true;
@@ -650,7 +656,13 @@ fn e2e(src: &str, with_out: bool) -> String {
     let sig = signature(&ast);
     let (a1, s1) = (ast.clone(), src.to_string());
     let out1 = match guarded(move || format_program(&a1, &s1)) {
-        Err(loc) => return format!("(panic {} format)", quote(&loc)),
+        Err(loc) => {
+            return format!(
+                "(panic {} format{})",
+                quote(&loc),
+                if sig.spawn_container { " spawn-container" } else { "" }
+            );
+        }
         Ok(o) => o,
     };
     let mut fields: Vec<String> = vec![];
@@ -735,6 +747,9 @@ fn e2e(src: &str, with_out: bool) -> String {
     }
     if sig.wrap_binding {
         sigs.push("wrap-binding");
+    }
+    if sig.multi_branch && !c_in.is_empty() {
+        sigs.push("comment-and-branches");
     }
     {
         // a blank (whitespace-only) line anywhere, incl. the first line (F20)
